@@ -575,6 +575,7 @@ func (m *Manager) HandleStreamData(streamID uint64, flags uint8, data []byte) er
 	if flags&protocol.FlagFinWrite != 0 {
 		stream.HandleRemoteFinWrite()
 	}
+	verifYield("HandleStreamData.between")
 
 	if len(data) > 0 {
 		if err := stream.PushData(data); err != nil {
